@@ -4,6 +4,7 @@ import (
 	"encoding/json"
 	"fmt"
 	"github.com/nspcc-dev/neo-go/pkg/core/transaction"
+	"os"
 	"path/filepath"
 	"sort"
 	"strings"
@@ -309,8 +310,12 @@ func (e *c03Env) classes(r c03Row) []c03Class {
 		if m := chainkit.AlphabetThreshold(c.N) - 1; m >= 1 && m != chainkit.MajorityThreshold(c.N) {
 			cl = append(cl, c03Class{fmt.Sprintf("one signature short of the Alphabet threshold (%d of %d)", m, c.N), S(c.MultisigOf(m)), false})
 		}
-		if vh := c.Validators.ScriptHash(); vh != alpha.ScriptHash() && vh != major.ScriptHash() {
+		if vh := c.Validators.ScriptHash(); vh != alpha.ScriptHash() && vh != major.ScriptHash() && c.FormerAlphabet == nil {
 			cl = append(cl, c03Class{"the consensus nodes' multisignature (fewer validators than committee members)", S(c.Validators), false})
+		}
+		if c.FormerAlphabet != nil {
+			cl = append(cl, c03Class{"the Alphabet account of the committee that was voted out", S(c.FormerAlphabet), false},
+				c03Class{"the majority account of the committee that was voted out", S(c.FormerCommittee), false})
 		}
 		return append(cl, c03Class{"the Alphabet multisignature", S(alpha), true})
 	case reqCommittee:
@@ -321,14 +326,21 @@ func (e *c03Env) classes(r c03Row) []c03Class {
 		if m := c.N / 2; m >= 1 {
 			cl = append(cl, c03Class{fmt.Sprintf("one signature short of the majority (%d of %d)", m, c.N), S(c.MultisigOf(m)), false})
 		}
-		if vh := c.Validators.ScriptHash(); vh != alpha.ScriptHash() && vh != major.ScriptHash() {
+		if vh := c.Validators.ScriptHash(); vh != alpha.ScriptHash() && vh != major.ScriptHash() && c.FormerAlphabet == nil {
 			cl = append(cl, c03Class{"the consensus nodes' multisignature (fewer validators than committee members)", S(c.Validators), false})
+		}
+		if c.FormerAlphabet != nil {
+			cl = append(cl, c03Class{"the Alphabet account of the committee that was voted out", S(c.FormerAlphabet), false},
+				c03Class{"the majority account of the committee that was voted out", S(c.FormerCommittee), false})
 		}
 		return append(cl, c03Class{"the committee majority", S(major), true})
 	case reqKeyAlpha:
 		cl := []c03Class{{"nobody relevant (a stranger)", S(e.strng), false}, {"the named key without the Alphabet", S(key), false}, {"the Alphabet without the named key", S(alpha), false}, {"the named key and a single Alphabet member", S(key, member), false}}
 		if !same {
 			cl = append(cl, c03Class{"the named key and the committee majority", S(key, major), false})
+		}
+		if c.FormerAlphabet != nil {
+			cl = append(cl, c03Class{"the named key and the Alphabet account of the committee that was voted out", S(key, c.FormerAlphabet), false})
 		}
 		return append(cl, c03Class{"the named key and the Alphabet", S(key, alpha), true})
 	case reqKey:
@@ -354,6 +366,9 @@ func (e *c03Env) classes(r c03Row) []c03Class {
 		cl := []c03Class{{"nobody relevant (a stranger)", S(e.strng), false}, {"a single Alphabet member", S(member), false}}
 		if !same {
 			cl = append(cl, c03Class{"the committee majority", S(major), false})
+		}
+		if c.FormerAlphabet != nil {
+			cl = append(cl, c03Class{"the Alphabet account of the committee that was voted out", S(c.FormerAlphabet), false})
 		}
 		return append(cl, c03Class{"the named key", S(key), true})
 	case reqRole:
@@ -407,8 +422,11 @@ func (e *c03Env) inert(what string, pre chainkit.Snapshot, o *chainkit.Outcome) 
 func TestC03Matrix(t *testing.T) {
 	theT = t
 	defer removeBumped()
-	col := ev.New("C03", "matrix",
-		"the method list is read from the manifests compiled from the working tree (11 contracts); for every non-safe method x committee size {1,3,4,7} (4: an even size, where half of the keys is not a majority) a fresh fully deployed and prepared world is built and every signer class of the method's documented requirement is tried in turn (nobody relevant, a single Alphabet member, the committee majority where the Alphabet is required and vice versa, the named key without the Alphabet, the Alphabet without the named key, ...): each deficient class must FAULT (or answer false) and leave the full snapshot of all contracts, GAS/NEO balances and notifications untouched, the exactly-required class must succeed; on committees of 1 and 4 keys additionally: the required signers present only as fee payers (witness scope None) while a stranger makes the call, in both signer orders - refused and inert; methods whose name starts with '_' must not be callable; every safe method is committed with plausible arguments and must leave the snapshot untouched; verify of Proxy/Alphabet/Processing is evaluated for every signer class; methods and classes are enumerated completely, arguments are one valid tuple per method here (groups arg-sweep and args vary them); a manifest method without a table row is reported as uncovered (not an alarm)",
+	grp, desc := "matrix", "the method list is read from the manifests compiled from the working tree (11 contracts); for every non-safe method x committee size {1,3,4,7} (4: an even size, where half of the keys is not a majority) a fresh fully deployed and prepared world is built and every signer class of the method's documented requirement is tried in turn (nobody relevant, a single Alphabet member, the committee majority where the Alphabet is required and vice versa, the named key without the Alphabet, the Alphabet without the named key, ...): each deficient class must FAULT (or answer false) and leave the full snapshot of all contracts, GAS/NEO balances and notifications untouched, the exactly-required class must succeed; on committees of 1 and 4 keys additionally: the required signers present only as fee payers (witness scope None) while a stranger makes the call, in both signer orders - refused and inert; methods whose name starts with '_' must not be callable; every safe method is committed with plausible arguments and must leave the snapshot untouched; verify of Proxy/Alphabet/Processing is evaluated for every signer class; methods and classes are enumerated completely, arguments are one valid tuple per method here (groups arg-sweep and args vary them); a manifest method without a table row is reported as uncovered (not an alarm)"
+	if os.Getenv("VERIF_C03_REELECT") != "" {
+		grp, desc = "re-election", "the matrix world on committees of 1 and 3 keys, but after the world has been deployed and prepared by the original committee the whole committee is voted out (fresh candidates, 30 % of NEO in votes, blocks until getCommittee answers with the new keys); then for every method gated by the Alphabet or the committee (alone, with a named key, or as the alternative to one): the usual deficient classes built from the new committee, plus the Alphabet and majority accounts of the committee that was voted out (refused and inert), and the new committee's account (must succeed)"
+	}
+	col := ev.New("C03", grp, desc,
 		"the witness requirement table is hand-written from the contracts' documentation")
 	defer func() { col.Flush(true) }()
 	nshards, shard := envInt("VERIF_NSHARDS", 1), envInt("VERIF_SHARD_INDEX", 0)
@@ -435,11 +453,20 @@ func TestC03Matrix(t *testing.T) {
 	})
 	uncovered := []string{}
 	idx := 0
+	reelect := os.Getenv("VERIF_C03_REELECT") != ""
 	for _, n := range envInts("VERIF_C03_N", []int{1, 3, 4, 7}) {
 		for _, u := range universe {
 			key := fmt.Sprintf("%s.%s/%d", u.contract, u.m.Name, len(u.m.Parameters))
 			idx++
 			if idx%nshards != shard {
+				continue
+			}
+			if reelect && (u.m.Safe || strings.HasPrefix(u.m.Name, "_")) {
+				continue
+			}
+			if reelect && (u.contract == "neofs" || u.contract == "processing") {
+				// main-chain contracts: their Alphabet is the key list stored in the NeoFS contract (changed by alphabetUpdate
+				// only, see C17), not the chain's committee - a re-election does not concern them
 				continue
 			}
 			h := ev.NewHistory()
@@ -480,9 +507,20 @@ func TestC03Matrix(t *testing.T) {
 					h.Mark("uncovered")
 					return
 				}
+				if reelect && row.req != reqAlphabet && row.req != reqCommittee && row.req != reqKeyAlpha && row.req != reqKeyOrAlph {
+					h.Mark("not-alphabet-gated")
+					return
+				}
 				e := newC03Env(n)
 				defer e.c.Close()
 				e.h["probe"] = e.c.Deploy(chainkit.Probe("subscriber", "verif subscriber 0"), nil)
+				if reelect {
+					// the whole committee is voted out after the world has been prepared (and every contract has seen calls
+					// by the old Alphabet): from now on the old accounts are nobody, the new ones are the Alphabet
+					e.c.Reelect("c03")
+					h.Op("committee re-elected")
+					h.Mark("committee-re-elected")
+				}
 				target := e.h[u.contract]
 				if row.target != "" {
 					target = e.h[row.target]
@@ -526,7 +564,7 @@ func TestC03Matrix(t *testing.T) {
 				// the required signers are on the transaction, but only to pay for it (witness scope None), and a
 				// stranger makes the call: their witnesses do not cover the contract - a deficient set like any other.
 				// (Run on a fresh world, because the allowed class above has already changed this one.)
-				if row.req != reqNone && row.req != reqCallback && (n == 1 || n == 4) {
+				if row.req != reqNone && row.req != reqCallback && (n == 1 || n == 4) && !reelect {
 					e2 := newC03Env(n)
 					defer e2.c.Close()
 					e2.h["probe"] = e2.c.Deploy(chainkit.Probe("subscriber", "verif subscriber 0"), nil)
